@@ -225,6 +225,8 @@ class Roles:
         self.by_path = self.units
         self.frole = {}            # (struct adt, field name) -> role learned from its construction sites
         self.structs = set(p_ for p_, a_ in fx.adts.items() if a_.get("kind") == "struct")
+        self.wenums = set(p_ for p_, a_ in fx.adts.items() if a_.get("kind") == "enum" and
+                          p_.split("::")[0] in ("libxcp", "libfs", "xcp") and p_ != OPERATION)
         self.closure_parent = {}   # closure path -> (parent fn, operands)
         for f in self.fns:
             for b in f.blocks:
@@ -300,6 +302,8 @@ class Roles:
                     roles = VARIANT_ROLES[(adt, variant)]
                     if e["f"] < len(roles):
                         r = roles[e["f"]]
+                elif variant is not None and (adt, "%s#%d" % (variant, e["f"])) in self.frole:
+                    r = self.frole[(adt, "%s#%d" % (variant, e["f"]))]
                 elif e.get("upvar") and f.is_closure and p["l"] == 1:
                     par = self.closure_parent.get(f.path)
                     if par and e["f"] < len(par[1]):
@@ -338,6 +342,19 @@ class Roles:
                         elif k == "agg" and rv.get("ak") in ("tuple", "array"):
                             for o in rv["fields"]:
                                 r = join(r, self.operand_role(f, o))
+                        elif k == "agg" and rv.get("ak") == "adt" and rv.get("adt") in self.wenums and \
+                                (rv.get("adt"), rv.get("variant")) not in VARIANT_ROLES and rv.get("fields"):
+                            # a workspace enum that carries paths (`Action::Copy { from, to }` chosen by a
+                            # classify step and executed by a perform step): each field of each variant has the
+                            # role of what it is built from
+                            for i_, o in enumerate(rv["fields"]):
+                                fr = self.operand_role(f, o)
+                                key_ = (rv["adt"], "%s#%d" % (rv.get("variant"), i_))
+                                old_ = self.frole.get(key_, NONE)
+                                new_ = join(old_, fr)
+                                if new_ != old_:
+                                    self.frole[key_] = new_
+                                    changed = True
                         elif k == "agg" and rv.get("ak") == "adt" and rv.get("adt") in self.structs and \
                                 rv.get("adt") != COPYHANDLE:
                             # a workspace struct that carries paths/descriptors (a builder, a per-run context, a
